@@ -306,51 +306,82 @@ def register(add):
 
 # Additions made when the workloads were widened against independently seeded changes
 # (appended to the level text by gen_manifest.py).
-COMMON = (" Every third shard runs with DEBUG logging on and every record formatted (logging is a workload "
-          "dimension, rtmon/logmode.py).")
+COMMON = (" A share of the shards runs with DEBUG logging on and every record formatted (logging is a workload "
+          "dimension, rtmon/logmode.py); where shards carry a protocol version, pairs of them also run co-resident in one "
+          "process, in both orders.")
 EXTRA = {
-    "C01": "",
+    "C01": " Reads may coalesce everything that arrives within 2 ms and duplicates may share one read; payloads reach 186 "
+           "bytes (the reference NCP endpoint takes 220-byte frames); a host-requested reset in mid-session - also of a "
+           "link the host considers failed - must not hand old-session frames up a second time (only duplicates are "
+           "judged there: across a reset the two ends are briefly in different sessions).",
+    "C02": " Macro symbols include ERROR / RSTACK code 0x00 and data fields of exactly 256 and 257 bytes; mutated streams "
+           "use payloads up to 300 bytes and codes 0x00 / 0xFF.",
     "C03": " A fifth payload pattern makes the randomised data field walk through every ordered pair of reserved / "
            "reserved^0x20 bytes; every DATA frame is also fed to the running receiver as the reference's wire image "
            "(decode direction end to end); the stuffing helpers are compared with the reference on all 2-byte strings "
            "and all strings up to length 4 over the escape-adjacent alphabet; the running-host part is repeated with "
            "DEBUG logging on.",
+    "C04": " Several frames are also delivered in ONE read (all pairs from every state, seeded longer reads): one answer "
+           "per DATA frame, in order; the rule is also checked after the host gave up on a send of its own (budget "
+           "exhausted by timeouts or NAKs): an ERROR frame still reports its code, an RSTACK still restarts numbering.",
     "C05": " After a failure the host's own RST is written and another send is issued before the RSTACK arrives: still "
-           "no DATA frame may be written.",
+           "no DATA frame may be written; callers are cancelled while their frame is in flight (the frame stays the "
+           "link's business: window and budget rules continue to apply); an ERROR frame arriving after the host gave up "
+           "on its own is reported with its code.",
+    "C06": " The seeded part also uses the route / extended-timeout set-up commands (packet-send class) and ordinary "
+           "commands whose frame ID means something else in another protocol version; the simulated NCP sets the "
+           "callbackPending / overflow frame-control bits on responses.",
     "C07": " Keyword calls are also made in reversed / shuffled order and mixed with a positional prefix; an "
            "invalidCommand frame answering pending commands of several response layouts must be decoded with its own "
-           "schema and end the call with InvalidCommandError at once.",
+           "schema; half of the shards use a socket:// device path; every unsolicited frame is fed twice in a row and "
+           "must be delivered twice.",
+    "C08": " Truncations are repeated with other frame-control bytes (overflow / truncated / callback-pending / reserved "
+           "bits); the pending command's caller is cancelled and its well-formed response delivered before the "
+           "cancelled task has run its clean-up.",
     "C09": " Duplicates are produced both in a read of their own and within one read (an RSTACK doubled in one read "
            "must not fail bring-up); a late-booting socket NCP may also read the queued RST once it is up (boot RSTACK "
-           "and answer RSTACK in one read); the sequence ends with stop_ezsp + startup_reset + write_config on the same "
-           "connection (ControllerApplication._reset), which must reset the NCP and renegotiate from the legacy format; "
-           "when the receive callback raises the fake transport closes and reports connection_lost(exc) as asyncio "
-           "transports do.",
+           "and answer RSTACK in one read); a raw command and a handler-implemented helper are used after every "
+           "negotiation; a second task issues a command while the reset is in progress; the sequence ends with stop_ezsp + "
+           "startup_reset + write_config on the same connection (ControllerApplication._reset), which must reset the NCP "
+           "and renegotiate from the legacy format; an exception escaping the receive callback is treated as asyncio's "
+           "socket transports do (close, connection_lost) on socket paths and as serial-port transports do (logged) on "
+           "serial paths.",
     "C10": " Failure kinds include an NCP that rejects the next one or three DATA frames with a NAK and is silent from "
            "then on; every post-registration crash point is repeated after a history in which the NCP already failed "
-           "once (ERROR / power-on RSTACK) before any application was attached.",
+           "once before any application was attached; the NCP takes 4 ms to execute a command on half of the cases; the "
+           "caller of the in-flight command is cancelled in the very loop iteration in which the failure is processed; "
+           "both transport behaviours for an exception escaping the receive callback alternate.",
     "C11": " One or two further reset requests are made on the same gateway after the first ended by completion, "
-           "timeout, failure code or a failing RST write (write error, port closing): each must write its own RST and end "
-           "by RSTACK(0x0B) or the reset timeout; an NCP DATA frame may arrive between the RST and the RSTACK; a host DATA "
-           "frame may still be unacknowledged at the reset (its ACK in the same read as the RSTACK, or just before); "
-           "numbering is also checked after a completed start-up wait following prior traffic.",
+           "timeout, failure code or a failing RST write (write error, port closing); an NCP DATA frame - new, or a "
+           "retransmission of one the host already took - may arrive between the RST and the RSTACK; a host DATA frame "
+           "may still be unacknowledged at the reset, with another one queued behind it; numbering is also checked "
+           "after a completed start-up wait following prior traffic; the waiter-release clause is repeated with the "
+           "gateway in its own thread (use_thread=True, real time).",
     "C12": " Refusals and failed confirmations are repeated with every other status code of the reply's status family; "
            "confirmations of every outgoing-message type carrying the request's tag but another destination / table "
-           "index must not complete it.",
-    "C13": " Mixed shards keep applications of several protocol versions alive in one process and alternate callbacks "
-           "between them; the node's own network address is changed mid-run (by replacing node_info, and in place).",
+           "index must not complete it; the application is disconnected while accepted unicasts await confirmation.",
+    "C13": " Mixed shards keep applications of several protocol versions alive in one process; the same application "
+           "object is reconnected to NCPs of other versions across the v14 boundary; the node's own network address is "
+           "changed mid-run; the network information is re-read while unicasts keep arriving; trust-centre join "
+           "callbacks also come in bursts of two or three, and events are judged after the loop had time.",
     "C14": " A link key that is not the last one may be refused by the NCP (the others must still make the round trip); "
            "frame counter 0 is written over an NCP that holds a non-zero counter from an earlier network.",
-    "C15": " Start-up is also run with several coordinator endpoints that share groups; rejections are repeated with "
-           "every status code of the reply's family.",
-    "C16": " Rejections carry status codes cycling through the reply's whole status family.",
+    "C15": " Start-up is also run with several coordinator endpoints that share groups, and again on the same object "
+           "after the NCP cleared or lost entries; pairs / triples of calls for different groups overlap in time; "
+           "rejections are repeated with every status code of the reply's family; group changes are also made through "
+           "the coordinator's endpoint of a started application (add_to_group / remove_from_group).",
+    "C16": " Rejections carry status codes cycling through the reply's whole status family; overrides equal to the "
+           "library's own default are user values too; the configuration is also written through "
+           "ControllerApplication.connect() and _reset() on every version.",
     "C17": " 'Quiet' shards deliver nothing but the operations' own completing events, so the same status value repeats "
            "with nothing in between; 'overlap' shards run scan, poll, ZLL scan and a foreign add/remove_callback with "
            "every interleaving of their start and end events (non-LIFO lifetimes): each list command returns exactly "
            "the results delivered between its issue and its completion and nothing stays registered.",
+    "C19": " Free-buffer reports vary from feed to feed (including nearly none); the all-success period run carries "
+           "isolated failures; on v4 the EZSP object is closed for good while the watchdog keeps feeding.",
     "C20": " Wrappers are also looked up once (on the owner loop, on another loop, in a thread without a loop) and called "
-           "later from elsewhere; calls are made while the owner's loop is open but not running (not started, between two "
-           "run phases) and must execute once it runs; a quarter of the coroutine calls are fire-and-forget and must "
-           "execute all the same; coroutine calls handed to the owner's loop before force_stop() - running or still "
-           "queued behind a busy loop - must come back to their callers.",
+           "later from elsewhere; calls are made while the owner's loop is open but not running and must execute once it "
+           "runs; a quarter of the coroutine calls are fire-and-forget and must execute all the same; coroutine calls "
+           "handed to the owner's loop before force_stop() - running or still queued behind a busy loop - must come back "
+           "to their callers; a proxy that is the only holder of its object keeps it alive across garbage collections.",
 }
